@@ -121,9 +121,7 @@ func VerifC11_KeyPreserved() {
 	negate := rt.Bool("negate")
 	_ = hasSpace
 	_ = hasBackslash
-	// known finding: a key that is exactly a structural token cannot be told
-	// apart from that token by the parser (quoting is lost in the tokenizer)
-	rt.Region("C11-reserved-word-key", rt.Any(rt.EqStr(k, "("), rt.EqStr(k, ")"), rt.EqStr(k, "and"), rt.EqStr(k, "or"), rt.EqStr(k, "not")))
+	// (includes keys that are exactly a structural token of the language)
 	var cond Condition = Where(k, Exists, nil)
 	if negate {
 		cond = Not(cond)
